@@ -5,6 +5,7 @@ Case kinds (first token of the protocol line; see hooks/banyand/internal/verifdr
   smerge   stream.MergeGroupElements (cross-group merge by timestamp)
   mmerge   measure.MergeGroupMIterators (k-way merge + (sid,ts)-by-version de-dup) + row-path limitIterator
   topq     measure.TopQueue
+  mqr      banyand/measure queryResult (heap of block cursors over real mem parts; order by time asc/desc or by series)
   sidx     real sidx (write/flush/merge history, StreamingQuery + QuerySync), queries OUTSIDE the F11 class
   sidxdup  same with duplicate data payloads (exercises the data-level de-duplication)
   sidxf11  same, queries targeting the F11 class (matched blocks > scanner batch threshold, overlapping ranges)
@@ -197,6 +198,80 @@ def gen_topq(rng):
     return "topq %d %s %s" % (n, rng.choice(["top", "bot"]), ",".join(map(str, vals)) or "-")
 
 
+def mqr_val(sid, ts, ver):
+    return (sid * 131 + ts * 17 + ver * 7) % 1000
+
+
+def gen_mqr(rng):
+    nparts = rng.choice([1, 2, 2, 3, 4])
+    nser = rng.choice([1, 2, 3, 4])
+    tmax = rng.choice([3, 6, 20, 10**12])
+    parts = []
+    for _ in range(nparts):
+        rows = []
+        for _ in range(rng.choice([1, 2, 3, 5, 8, 12])):
+            sid, ts, ver = rng.randint(1, nser), rng.randint(1, tmax), rng.randint(1, 3)
+            rows.append("%d:%d:%d:%d" % (sid, ts, ver, mqr_val(sid, ts, ver)))
+        parts.append(",".join(rows))
+    r = rng.random()
+    if r < 0.5:
+        lo, hi = 1, max(tmax, 100)
+    else:
+        a, b = rng.randint(1, tmax), rng.randint(1, tmax)
+        lo, hi = min(a, b), max(a, b)
+    sids = rng.sample(range(1, nser + 2), rng.randint(1, nser + 1))
+    ord_ = rng.choice(["ts", "ts", "sid"])
+    d = rng.choice(["asc", "desc"]) if ord_ == "ts" else "asc"
+    return "mqr %s %s %d %d %s %s" % (ord_, d, lo, hi, "+".join(map(str, sids)), "|".join(parts))
+
+
+def parse_groups(g):
+    if g == "-":
+        return []
+    out = []
+    for grp in g.split("/"):
+        sid, rows = grp.split("=")
+        out.append((int(sid), [tuple(map(int, r.split(":"))) for r in rows.split(",")] if rows else []))
+    return out
+
+
+def mqr_oracle(line, g):
+    f = line.split()
+    by_ts, desc, lo, hi = f[1] == "ts", f[2] == "desc", int(f[3]), int(f[4])
+    sids = [int(x) for x in f[5].split("+")]
+    best = {}
+    for p in f[6].split("|"):
+        for r in p.split(","):
+            sid, ts, ver, val = map(int, r.split(":"))
+            if sid in sids and lo <= ts <= hi:
+                best[(sid, ts)] = max(best.get((sid, ts), 0), ver)
+    groups = parse_groups(g)
+    flat = []
+    for sid, rows in groups:
+        if not rows:
+            return ("violation", "mqr: empty result returned by Pull")
+        for ts, ver, val in rows:
+            flat.append((sid, ts, ver, val))
+    seen = set()
+    for sid, ts, ver, val in flat:
+        if (sid, ts) not in best or (sid, ts) in seen:
+            return ("violation", "mqr: row (%d,%d) unexpected or repeated" % (sid, ts))
+        seen.add((sid, ts))
+        if ver != best[(sid, ts)] or val != mqr_val(sid, ts, ver):
+            return ("violation", "mqr: (%d,%d) returned version %d value %d, newest is %d" % (sid, ts, ver, val, best[(sid, ts)]))
+    if seen != set(best):
+        return ("violation", "mqr: %d of %d (series, timestamp) pairs returned" % (len(seen), len(best)))
+    if by_ts:
+        tss = [r[1] for r in flat]
+        if any((a < b) if desc else (a > b) for a, b in zip(tss, tss[1:])):
+            return ("violation", "mqr: timestamps not in order: %s" % tss[:24])
+    else:
+        keys = [(sids.index(r[0]), r[1]) for r in flat]
+        if keys != sorted(keys):
+            return ("violation", "mqr: rows not ordered by series (request order) then time")
+    return None
+
+
 def sim_blocks(parts):
     """generator-side layout: one block per (part, series)"""
     out = []
@@ -339,6 +414,8 @@ class C09(vlib.Spec):
         "sidx: blocks of different parts with identical (minKey,maxKey,seriesID) are ordered by data offset in the "
         "implementation and arbitrarily in the model; the comparison abstains when that order matters (F11 class only)",
         "measure merge: hashDataPoint (fnv of sid, seconds, nanos) is collision free; timestamps >= 0",
+        "measure queryResult: series ids and timestamps >= 1 (0 is a sentinel in part.go/query.go, see C02/C03), no tag/field "
+        "projection beyond one int field, no TopN options, <= 8192 rows per (part, series)",
         "limitIterator: uint32 index does not overflow",
     ]
     rule = ("sort/smerge: 1-6 sorted iterators over a duplicate-rich key pool incl. empty iterators and empty keys; "
@@ -346,12 +423,13 @@ class C09(vlib.Spec):
             "int64 extremes), random flush/merge history, 2-6 queries each with MaxBatchSize in {0,1,2,3,7,64}, "
             "key ranges (open, inner, outside, single key), series subsets, asc/desc, through StreamingQuery and "
             "QuerySync; mmerge: 1-4 nodes with (sid,ts) duplicates of differing versions, offset/limit at 0/end/beyond; "
-            "topq: n in 1..10 over up to 30 values. non-trivial = distinct case with at least two input elements")
+            "topq: n in 1..10 over up to 30 values; mqr: 1-4 mem parts x 1-4 series with (series, timestamp) "
+            "duplicates of versions 1-3 inside and across parts, time ranges, order by time asc/desc or by series. non-trivial = distinct case with at least two input elements")
 
     def cases(self, rng, n):
         out = []
-        mix = [("sort", 0.2), ("smerge", 0.05), ("mmerge", 0.15), ("topq", 0.08),
-               ("sidx", 0.27), ("sidxdup", 0.1), ("sidxf11", 0.15)]
+        mix = [("sort", 0.17), ("smerge", 0.05), ("mmerge", 0.13), ("topq", 0.07), ("mqr", 0.13),
+               ("sidx", 0.22), ("sidxdup", 0.09), ("sidxf11", 0.14)]
         for _ in range(n):
             r, acc = rng.random(), 0.0
             kind = "sidx"
@@ -368,6 +446,8 @@ class C09(vlib.Spec):
                 out.append(gen_mmerge(rng))
             elif kind == "topq":
                 out.append(gen_topq(rng))
+            elif kind == "mqr":
+                out.append(gen_mqr(rng))
             else:
                 out.append(gen_sidx(rng, kind))
         return out
@@ -420,6 +500,8 @@ class C09(vlib.Spec):
             if got != want:
                 return ("violation", "topq: Elements %s, expected %s" % (got[:12], want[:12]))
             return None
+        if kind == "mqr":
+            return mqr_oracle(line, g)
         if kind.startswith("sidx"):
             return self.sidx_oracle(line, g)
         return ("violation", "unknown case kind")
@@ -549,6 +631,8 @@ class C09(vlib.Spec):
             return line if f[4].count(",") + f[4].count("|") >= 1 else None
         if f[0] == "topq":
             return line if f[3].count(",") >= 1 else None
+        if f[0] == "mqr":
+            return line if f[6].count(":") >= 6 else None
         return line if line.count(":") >= 4 else None
 
     def kind(self, line):
@@ -620,10 +704,13 @@ PROPS = [
     # sidx
     "iterBlocks_sorted", "iterBlocks_perm", "matching_eq", "drainBatch_sorted", "drainBatch_perm",
     "streaming_eq_sync", "sidx_query_sorted", "streaming_perm_matching", "noF11_of_selected", "sidx_query_spec",
+    "buildBlocks_wf", "applyOps_WF", "sidx_query_spec_history",
     "f11_counterexample_small", "f11_counterexample", "first_n_correct", "first_n_counterexample_desc",
     "first_n_counterexample_range", "first_n_statement_false",
     # TopQueue, coordinator merge
     "topn_heap_spec", "topInsert_no_panic", "distributed_merge_spec", "distributed_eq_single_node", "mmerge_eq",
+    # measure queryResult
+    "strictWeak_qrLt_ts", "qrMerge_spec", "measure_pull_sorted", "measure_query_sorted",
 ]
 TIES = ["scanner_batch_tie", "max_block_length_tie", "less_by_key_tie", "threshold_shape_tie", "drain_shape_tie"]
 SPEC = C09()
@@ -634,6 +721,8 @@ PROPOSED_KNOWN = ("known: property=C09 id=F11 sidx: blocks matched > scanner bat
                   "StreamingQuery/QuerySync out of key order, QuerySync first-MaxBatchSize not the ordered top-N)")
 
 import os  # noqa: E402
+if os.environ.get("VERIF_C09_N"):      # builder-side testing only: override the case count
+    SPEC.counts = {"quick": int(os.environ["VERIF_C09_N"]), "thorough": int(os.environ["VERIF_C09_N"])}
 if os.environ.get("VERIF_C09_ASSUME_KNOWN") == "1":
     # builder-side testing only: behave as if PROPOSED_KNOWN were already listed in KNOWN_FINDINGS.txt
     _orig_load_known = vlib.load_known
